@@ -206,8 +206,8 @@ int run(const Options& o)
         "For every value v: refcodec.decode(unframe(lib.encode(v))) must equal the Engine layout of v field for field (and the frame must be exactly 4-byte BE length + one complete "
         "zlib stream), and lib.decode(frame(refcodec.encode(v))) must equal v, with the foreign blob compressed at zlib level -1/0/1/9 (chosen by case hash) and, for 1.x beat data, "
         "also with Engine's nine trailing zero bytes. Stored half: five snapshot variants (all slots, edge slots with 255-byte labels and four different colour channel values, short lists, three-marker grid) are "
-        "written on all 18 schemas along four paths (create_track; update over a different stored snapshot; the eight blob-backed single-field setters over a different stored snapshot, in forward and in reverse order); the raw quickCues / loops / beatData / trackData columns are read by raw SQL and decoded with refcodec and must hold exactly the content the Engine layout "
-        "prescribes for the snapshot (8 slots, empty slot = offset -1, channel order a,r,g,b, beats-to-next-marker, main cue twice, loudness three times on 2.x). Distinct = distinct (codec, payload) pairs; validated = comparisons that were carried out and agreed.";
+        "written on all 18 schemas along four paths (create_track; update over a different stored snapshot; the eight blob-backed single-field setters over a different stored snapshot, in forward and in reverse order); the raw quickCues / loops / beatData / trackData / overviewWaveFormData (and 1.x highResolutionWaveFormData) columns are read by raw SQL and decoded with refcodec and must hold exactly the content the Engine layout "
+        "prescribes for the snapshot (8 slots, empty slot = offset -1, channel order a,r,g,b, beats-to-next-marker, main cue twice, loudness three times on 2.x; overview waveform: recommended number of points, samples per point of the recommended extent, the points given, maximum point = maximum of the stored points; 1.x high-resolution waveform: the entries given as values then opacities, samples per point, maximum). Distinct = distinct (codec, payload) pairs; validated = comparisons that were carried out and agreed.";
     c["exhaustive"] = exhaustive;
     Json b = Json::object();
     b["phases"] = completed;
